@@ -29,8 +29,8 @@ Fixpoint cumsum_from (acc : Q) (l : list Q) : list Q :=
   match l with [] => [] | x :: t => (acc + x) :: cumsum_from (acc + x) t end.
 Definition cumsum (l : list Q) : list Q := cumsum_from 0 l.
 
-(**  while (ix < len(cumsum)-1) and (cumsum[ix] <= ptr): ix += 1
-     [cs] is the suffix of cumsum starting at position ix. *)
+(**  while (ix < last) and (cumsum[ix] <= ptr): ix += 1
+     [cs] is the part of cumsum[:last+1] that starts at position ix (see [sus_finish] for [last]). *)
 Fixpoint advance (cs : list Q) (ix : nat) (ptr : Q) : list Q * nat :=
   match cs with
   | c :: ((_ :: _) as t) => if Qle_bool c ptr then advance t (S ix) ptr else (cs, ix)
@@ -46,21 +46,28 @@ Fixpoint sus_walk (cs : list Q) (ix : nat) (ptrs : list Q) : list nat :=
 (** p[indices] *)
 Definition gather {A} (d : A) (x : list A) (ix : list nat) : list A := map (fun i => nth i x d) ix.
 
-(** positions -> element indices (indices[ix]); None = the IndexError of an empty weight vector, or of the
-    float-typed empty index array produced for k = 0 *)
-Definition sus_finish (order : list nat) (k : nat) (cs ptrs : list Q) (perm : list nat) : option (list nat) :=
-  match cs with
-  | [] => None
-  | _ => if Nat.eqb k 0 then None
-         else Some (permute 0%nat perm (gather 0%nat order (sus_walk cs 0 ptrs)))
-  end.
+(** number of elements of positive weight, numpy.count_nonzero(p > 0.0); the walk is confined to the positions
+    0..last with last = npos - 1 (commit eabf766a): in the descending order these are exactly the elements of positive
+    weight, so the zero-weight tail is never walked on to *)
+Definition npos (p : list Q) : nat := length (filter (fun x => negb (Qle_bool x 0)) p).
+
+(** positions -> element indices (indices[ix]).  An output size of zero returns the empty selection before anything
+    else is computed (commit f3dafbe4); None = the IndexError of an empty weight vector (indices[0]).
+      while (ix < last) and (cumsum[ix] <= ptr): ix += 1
+    is [advance] on the first last+1 = [np] cumulative sums (for np = 0, i.e. last = -1, the index stays 0). *)
+Definition sus_finish (order : list nat) (k np : nat) (cs ptrs : list Q) (perm : list nat) : option (list nat) :=
+  if Nat.eqb k 0 then Some []
+  else match cs with
+       | [] => None
+       | _ => Some (permute 0%nat perm (gather 0%nat order (sus_walk (firstn np cs) 0 ptrs)))
+       end.
 
 (** ** ideal model (exact rationals) *)
 Definition sus_ptrs_q (tot : Q) (k : nat) (off : Q) : list Q :=
   map (fun i => off + (tot / inject_Z (Z.of_nat k)) * inject_Z (Z.of_nat i)) (seq 0 k).
 (** selected element indices after the shuffle; [order] = p.argsort()[::-1] *)
 Definition sus_q (p : list Q) (order : list nat) (k : nat) (off : Q) (perm : list nat) : option (list nat) :=
-  sus_finish order k (cumsum (gather 0 p order)) (sus_ptrs_q (sumQ p) k off) perm.
+  sus_finish order k (npos p) (cumsum (gather 0 p order)) (sus_ptrs_q (sumQ p) k off) perm.
 
 (** ** binary64 model *)
 (** exact value of a finite double *)
@@ -83,8 +90,12 @@ Definition sus_dist_f (tot : float) (k : nat) : float := PrimFloat.div tot (f_of
 (** ptrs = offset + ptr_dist * numpy.arange(k) *)
 Definition sus_ptrs_f (tot : float) (k : nat) (off : float) : list float :=
   map (fun i => PrimFloat.add off (PrimFloat.mul (sus_dist_f tot k) (f_of_Z (Z.of_nat i)))) (seq 0 k).
+(** [p > 0.0] on finite doubles is the comparison of their exact values *)
 Definition sus_f (p : list float) (order : list nat) (k : nat) (off : float) (perm : list nat) : option (list nat) :=
-  sus_finish order k (map f2q (fcumsum (gather 0%float p order))) (map f2q (sus_ptrs_f (fsum p) k off)) perm.
+  sus_finish order k (npos (map f2q p)) (map f2q (fcumsum (gather 0%float p order))) (map f2q (sus_ptrs_f (fsum p) k off)) perm.
+(** the upper bound handed to rng.uniform(0.0, ptr_dist); None: no draw is requested for an output size of zero *)
+Definition sus_high_f (p : list float) (k : nat) : option float :=
+  if Nat.eqb k 0 then None else Some (sus_dist_f (fsum p) k).
 
 (** [order] is a permutation of the positions along which the weights do not increase (what argsort()[::-1]
     guarantees; tie order is left open) *)
@@ -95,6 +106,19 @@ Definition order_ok (p : list Q) (order : list nat) : bool :=
 
 (** a[sel] *)
 Definition take_labels (a : list Z) (sel : list nat) : list Z := gather 0%Z a sel.
+
+(** ** the code before commits f3dafbe4 and eabf766a (kept only as regression witnesses: what was wrong with it) *)
+(** no early return for an output size of zero (None: the IndexError of the float-typed empty index array, after a
+    division by zero), and the walk ran along all cumulative sums, on to the zero-weight tail:
+      while (ix < len(cumsum)-1) and (cumsum[ix] <= ptr): ix += 1 *)
+Definition old_sus_finish (order : list nat) (k : nat) (cs ptrs : list Q) (perm : list nat) : option (list nat) :=
+  match cs with
+  | [] => None
+  | _ => if Nat.eqb k 0 then None
+         else Some (permute 0%nat perm (gather 0%nat order (sus_walk cs 0 ptrs)))
+  end.
+Definition old_sus_f (p : list float) (order : list nat) (k : nat) (off : float) (perm : list nat) : option (list nat) :=
+  old_sus_finish order k (map f2q (fcumsum (gather 0%float p order))) (map f2q (sus_ptrs_f (fsum p) k off)) perm.
 
 (** ** the code before commit 2efef9f2 (kept only to state what was wrong with it) *)
 (** length of numpy.arange(start, stop, step): ceil((stop - start)/step) evaluated in binary64 *)
@@ -267,17 +291,33 @@ Definition oc_eqb (a b : option (list Z * nat)) : bool :=
 Fixpoint nondecr (l : list Q) : bool :=
   match l with x :: ((y :: _) as t) => Qle_bool x y && nondecr t | _ => true end.
 
+Local Open Scope Q_scope.
+(** |a - b| <= e *)
+Definition qnear (e a b : Q) : bool := Qle_bool (b - e) a && Qle_bool a (b + e).
+(** the numerical hypotheses of the "within one draw of floor/ceiling" theorem, with dp = dc = e = an eighth of the exact
+    pointer distance: the offset lies in [0, d + 2e), the binary64 cumulative sums and pointers are non-decreasing and
+    within e of the exact ones *)
+Definition sus_near (p : list float) (order : list nat) (k : nat) (off : float) : bool :=
+  let pq := map f2q p in
+  let e := sumQ pq / inject_Z (Z.of_nat k) / 8 in
+  Qle_bool 0 e && Qle_bool 0 (f2q off) && negb (Qle_bool (sumQ pq / inject_Z (Z.of_nat k) + (e + e)) (f2q off)) &&
+  nondecr (map f2q (fcumsum (gather 0%float p order))) && nondecr (map f2q (sus_ptrs_f (fsum p) k off)) &&
+  list_eqb (qnear e) (map f2q (fcumsum (gather 0%float p order))) (cumsum (gather 0 pq order)) &&
+  list_eqb (qnear e) (map f2q (sus_ptrs_f (fsum p) k off)) (sus_ptrs_q (sumQ pq) k (f2q off)).
+
 (** one stochastic-universal-sampling case: the binary64 model reproduces the implementation's output, the
-    requested upper bound of the uniform draw is the model's pointer distance, the order handed over by the
+    requested upper bound of the uniform draw is the model's pointer distance (no draw for an output size of zero), the order handed over by the
     implementation is a valid descending order, the binary64 pointers and cumulative sums are non-decreasing (the
-    hypotheses of the general counting theorem), and (when [exact], i.e. no binary64 operation rounds) the
+    hypotheses of the general counting theorem) and within an eighth of the pointer distance of the exact ones (the
+    hypotheses of the within-one-draw theorem), and (when [exact], i.e. no binary64 operation rounds) the
     ideal model gives the same selection *)
 Definition agree_sus (p : list float) (order : list nat) (k : nat) (off : float) (perm : list nat) (a : list Z)
-    (exact : bool) (impl_high : float) (impl_out : option (list Z)) : bool :=
+    (exact : bool) (impl_high : option float) (impl_out : option (list Z)) : bool :=
   let pq := map f2q p in
   forallb f_finite p && f_finite off &&
   order_ok pq order &&
   ozl_eqb (option_map (take_labels a) (sus_f p order k off perm)) impl_out &&
-  PrimFloat.eqb (sus_dist_f (fsum p) k) impl_high &&
+  opt_eqb PrimFloat.eqb (sus_high_f p k) impl_high &&
   nondecr (map f2q (sus_ptrs_f (fsum p) k off)) && nondecr (map f2q (fcumsum (gather 0%float p order))) &&
+  (Nat.eqb k 0 || sus_near p order k off) &&
   (if exact then ozl_eqb (option_map (take_labels a) (sus_q pq order k (f2q off) perm)) impl_out else true).
